@@ -199,12 +199,12 @@ harness! {
 }
 
 harness! {
-    // bound: facet_key_from_vertices order independence: 2 keys, index < 2^16, version in {1,3}: swapping the keys gives the same facet key
+    // bound: facet_key_from_vertices order independence: 2 keys, index < 64, version in {1,3}: swapping the keys gives the same facet key
     #[kani::unwind(5)]
     fn c05_facet_key_order_independent_2keys() {
         let idx: [u32; 2] = kani::any();
         let v3: [bool; 2] = kani::any();
-        kani::assume(idx[0] < 65536 && idx[1] < 65536);
+        kani::assume(idx[0] < 64 && idx[1] < 64);
         let k = [vkey(if v3[0] { 3 } else { 1 }, idx[0]), vkey(if v3[1] { 3 } else { 1 }, idx[1])];
         assert!(facet_key_from_vertices(&[k[0], k[1]]) == facet_key_from_vertices(&[k[1], k[0]]), "facet key does not depend on vertex order");
         assert!(facet_key_from_vertices(&[]) == 0);
@@ -214,11 +214,11 @@ harness! {
 }
 
 harness! {
-    // bound: facet_key_from_vertices order independence: 3 keys, index < 16, version 1, every permutation
+    // bound: facet_key_from_vertices order independence: 3 keys, index < 8, version 1, every permutation
     #[kani::unwind(6)]
     fn c05_facet_key_order_independent_3keys() {
         let idx: [u32; 3] = kani::any();
-        kani::assume(idx[0] < 16 && idx[1] < 16 && idx[2] < 16);
+        kani::assume(idx[0] < 8 && idx[1] < 8 && idx[2] < 8);
         let k = [vkey(1, idx[0]), vkey(1, idx[1]), vkey(1, idx[2])];
         let base = facet_key_from_vertices(&[k[0], k[1], k[2]]);
         let p: u8 = kani::any();
